@@ -144,4 +144,130 @@ theorem floorGroup_spec (kb : Bool) (ns : List String) (dd : String) (S : Datase
     · exact ⟨w, hw, Or.inr ⟨hin, rfl⟩⟩
     · exact ⟨w', hw, Or.inl rfl⟩
 
+/-! ### the groups of one depth dimension -/
+
+/-- a data variable that `ocean_floor` reduces along `dd`: it has the dimension and at least
+one spatial dimension -/
+def qual (ns : List String) (dd : String) (v : Var) : Bool :=
+  !v.isCoord && decide (dd ∈ v.dims) && !(spatialOf ns dd v).isEmpty
+
+def groupStep (ns : List String) (dd : String) (gs : List (List String × List String)) (v : Var) :=
+  if qual ns dd v then addToGroups gs (spatialOf ns dd v) v.name else gs
+
+theorem groupsOf_eq (ns : List String) (dd : String) (vars : List Var) :
+    groupsOf ns dd vars = vars.foldl (groupStep ns dd) [] := rfl
+
+theorem groupsOf_snoc (ns : List String) (dd : String) (xs : List Var) (x : Var) :
+    groupsOf ns dd (xs ++ [x]) = groupStep ns dd (groupsOf ns dd xs) x := by
+  simp [groupsOf_eq, List.foldl_append]
+
+theorem perm_addToGroups : ∀ (gs : List (List String × List String)) (key : List String) (name : String),
+    ((addToGroups gs key name).flatMap (·.2)).Perm (name :: gs.flatMap (·.2))
+  | [], key, name => by simp [addToGroups]
+  | (k, ns) :: rest, key, name => by
+    unfold addToGroups
+    split
+    · simp only [List.flatMap_cons]
+      have : (ns ++ [name] ++ rest.flatMap (·.2)).Perm (name :: (ns ++ rest.flatMap (·.2))) := by
+        rw [List.append_assoc]
+        exact List.perm_middle
+      exact this
+    · simp only [List.flatMap_cons]
+      have ih := perm_addToGroups rest key name
+      exact (List.Perm.append_left ns ih).trans List.perm_middle
+
+theorem sameSet_refl (a : List String) : sameSet a a = true := by
+  simp [sameSet]
+
+/-- where a group of `addToGroups` comes from -/
+theorem mem_addToGroups : ∀ (gs : List (List String × List String)) (key : List String) (name : String)
+    (g : List String × List String), g ∈ addToGroups gs key name →
+      g ∈ gs ∨ (∃ ns, (g.1, ns) ∈ gs ∧ sameSet g.1 key = true ∧ g.2 = ns ++ [name]) ∨ g = (key, [name])
+  | [], key, name, g, h => by
+    simp only [addToGroups, List.mem_singleton] at h
+    exact Or.inr (Or.inr h)
+  | (k, ns) :: rest, key, name, g, h => by
+    unfold addToGroups at h
+    split at h
+    · rename_i hs
+      rcases List.mem_cons.mp h with rfl | hm
+      · exact Or.inr (Or.inl ⟨ns, by simp, hs, rfl⟩)
+      · exact Or.inl (by simp [hm])
+    · rcases List.mem_cons.mp h with rfl | hm
+      · exact Or.inl (by simp)
+      · rcases mem_addToGroups rest key name g hm with h1 | ⟨ns', h2, h3, h4⟩ | h5
+        · exact Or.inl (by simp [h1])
+        · exact Or.inr (Or.inl ⟨ns', by simp [h2], h3, h4⟩)
+        · exact Or.inr (Or.inr h5)
+
+/-- every group has a head that is a qualifying variable whose spatial dimensions are the
+group's key, and every member is a qualifying variable with the same set of spatial dimensions -/
+def GroupsOK (ns : List String) (dd : String) (vars : List Var) (gs : List (List String × List String)) : Prop :=
+  ∀ g ∈ gs,
+    (∃ n0 rest v0, g.2 = n0 :: rest ∧ v0 ∈ vars ∧ v0.name = n0 ∧ qual ns dd v0 = true ∧ g.1 = spatialOf ns dd v0)
+    ∧ (∀ m ∈ g.2, ∃ v ∈ vars, v.name = m ∧ qual ns dd v = true ∧ sameSet g.1 (spatialOf ns dd v) = true)
+
+theorem groupsOK_mono (ns : List String) (dd : String) (xs ys : List Var) (gs : List (List String × List String))
+    (h : GroupsOK ns dd xs gs) (hsub : ∀ v ∈ xs, v ∈ ys) : GroupsOK ns dd ys gs := by
+  intro g hg
+  obtain ⟨⟨n0, rest, v0, h1, h2, h3, h4, h5⟩, hm⟩ := h g hg
+  refine ⟨⟨n0, rest, v0, h1, hsub v0 h2, h3, h4, h5⟩, ?_⟩
+  intro m hmem
+  obtain ⟨v, hv, hr⟩ := hm m hmem
+  exact ⟨v, hsub v hv, hr⟩
+
+theorem groupStep_ok (ns : List String) (dd : String) (xs : List Var) (x : Var)
+    (gs : List (List String × List String))
+    (ihok : GroupsOK ns dd xs gs)
+    (ihperm : (gs.flatMap (·.2)).Perm ((xs.filter (qual ns dd)).map (·.name))) :
+    GroupsOK ns dd (xs ++ [x]) (groupStep ns dd gs x)
+      ∧ ((groupStep ns dd gs x).flatMap (·.2)).Perm (((xs ++ [x]).filter (qual ns dd)).map (·.name)) := by
+  unfold groupStep
+  by_cases hq : qual ns dd x = true
+  · simp only [hq, if_true]
+    constructor
+    · intro g hg
+      have ihok' := groupsOK_mono ns dd xs (xs ++ [x]) _ ihok (fun v hv => by simp [hv])
+      rcases mem_addToGroups _ _ _ g hg with h1 | ⟨ns', h2, h3, h4⟩ | h5
+      · exact ihok' g h1
+      · obtain ⟨⟨n0, rest, v0, e1, e2, e3, e4, e5⟩, hm⟩ := ihok' (g.1, ns') h2
+        simp only at e1 e5 hm
+        refine ⟨⟨n0, rest ++ [x.name], v0, by rw [h4, e1]; rfl, e2, e3, e4, e5⟩, ?_⟩
+        intro m hmem
+        rw [h4] at hmem
+        rcases List.mem_append.mp hmem with hm1 | hm2
+        · exact hm m hm1
+        · simp only [List.mem_singleton] at hm2
+          exact ⟨x, by simp, hm2.symm, hq, h3⟩
+      · subst h5
+        refine ⟨⟨x.name, [], x, rfl, by simp, rfl, hq, rfl⟩, ?_⟩
+        intro m hmem
+        simp only [List.mem_singleton] at hmem
+        exact ⟨x, by simp, hmem.symm, hq, sameSet_refl _⟩
+    · refine (perm_addToGroups _ _ _).trans ?_
+      simp only [List.filter_append, List.filter_cons, hq, if_true, List.filter_nil, List.map_append,
+        List.map_cons, List.map_nil]
+      exact (List.Perm.cons _ ihperm).trans (List.perm_append_singleton _ _).symm
+  · simp only [hq, Bool.false_eq_true, if_false]
+    constructor
+    · exact groupsOK_mono ns dd xs (xs ++ [x]) _ ihok (fun v hv => by simp [hv])
+    · simpa [List.filter_append, List.filter_cons, hq] using ihperm
+
+theorem groupFold_ok (ns : List String) (dd : String) : ∀ (vars pre : List Var)
+    (gs : List (List String × List String)),
+    GroupsOK ns dd pre gs → (gs.flatMap (·.2)).Perm ((pre.filter (qual ns dd)).map (·.name)) →
+    GroupsOK ns dd (pre ++ vars) (vars.foldl (groupStep ns dd) gs)
+      ∧ ((vars.foldl (groupStep ns dd) gs).flatMap (·.2)).Perm (((pre ++ vars).filter (qual ns dd)).map (·.name))
+  | [], pre, gs, h1, h2 => by simpa using ⟨h1, h2⟩
+  | x :: xs, pre, gs, h1, h2 => by
+    obtain ⟨k1, k2⟩ := groupStep_ok ns dd pre x gs h1 h2
+    have := groupFold_ok ns dd xs (pre ++ [x]) _ k1 k2
+    simpa [List.append_assoc] using this
+
+theorem groupsOf_ok (ns : List String) (dd : String) (vars : List Var) :
+    GroupsOK ns dd vars (groupsOf ns dd vars)
+      ∧ ((groupsOf ns dd vars).flatMap (·.2)).Perm ((vars.filter (qual ns dd)).map (·.name)) := by
+  have := groupFold_ok ns dd vars [] [] (by intro g hg; simp at hg) (by simp)
+  simpa [groupsOf_eq] using this
+
 end Ems.Depth
